@@ -273,9 +273,11 @@ def generate_schedules(rep, wd, thorough):
 # trace validation
 
 _RE_VERDICT = re.compile(r'<<"VERDICT", "(.*)">>')
-_RE_DEVUSED = re.compile(r'<<"DEVIATIONS-USED", (\d+)>>')
+# uses of an open deviation by the trace, one TLC register (and one line of the POSTCONDITION) per deviation
+_RE_DEVUSED = {"LoopBudget": re.compile(r'<<"DEVIATIONS-USED", (\d+)>>'),
+               "ResetDropsFrameTail": re.compile(r'<<"DEVIATION-RESETDROP-USED", (\d+)>>')}
 # open deviation -> id of the finding in known_findings.json
-DEV_FINDING = {"LoopBudget": "loop-budget-drops-connection"}
+DEV_FINDING = {"LoopBudget": "loop-budget-drops-connection", "ResetDropsFrameTail": "reset-drops-frame-tail"}
 
 
 def split_runs(path):
@@ -318,10 +320,10 @@ def validate(rep, wd, role, runs, devs, tag, max_rounds=8):
         t = vlib.tlc_trace("Trace_H2Flow", cfg, PID, path, timeout=900)
         rep.cov["states"] += t["distinct"]
         rep.cov["transitions"] += t["generated"]
-        m = _RE_DEVUSED.search(t["out"])
-        if m and int(m.group(1)) > 0 and rounds == 1:
+        if rounds == 1:
             for d in devs:
-                for _ in range(int(m.group(1))):
+                m = _RE_DEVUSED[d].search(t["out"]) if d in _RE_DEVUSED else None
+                for _ in range(int(m.group(1)) if m else 0):
                     rep.known_finding_seen(DEV_FINDING.get(d, d))
         if t["accepted"] and t["consumed"] == total:
             accepted += len(remaining)
